@@ -57,6 +57,7 @@ struct NodeWorld : World {
         if (op.kind == OP_SEEK && op.a[0] > 1) { Op o = op; o.a[0] = 1; v.push_back(o); }
         return v;
     }
+    bool merge(const Op &a, const Op &b, Op &out) const override { if (a.kind == OP_CLOCK && b.kind == OP_CLOCK) { out = a; out.a[0] = a.a[0] + b.a[0]; return true; } return false; }
     static int64_t fbits(float f) { uint32_t u; memcpy(&u, &f, 4); return u; }
     void gen(const std::string &prop, Rng &kr, Rng &pr, Knobs &k, Plan &p) override {
         auto &L = app::leaves(); k.assign(1, kr.chance(0.5));
